@@ -386,8 +386,12 @@ func (r *Runner) stmtSync(ctx context.Context, st *syntax.Stmt) {
 	} else if ranCmd && isCompoundCmd(st.Cmd) {
 		// The failure of a group, conditional or loop comes from a command
 		// inside it, which already triggered errexit unless it was ignored.
-	} else if !r.exit.ok() && !r.noErrExit {
-		r.trapCallback(ctx, r.callbackErr, "error")
+	} else if !r.exit.ok() && !r.noErrExit && !r.exit.exiting && !r.exit.returning {
+		// Without errtrace, which is not supported, functions do not
+		// inherit the ERR trap.
+		if !r.inFunc {
+			r.trapCallback(ctx, r.callbackErr, "error")
+		}
 		// If the "errexit" option is set and a command failed, exit the shell. Exceptions:
 		//
 		//   conditions (if <cond>, while <cond>, etc)
